@@ -41,7 +41,8 @@ type C06Case struct {
 	Writer  []WOp   `json:"writer"`
 	Readers [][]ROp `json:"readers"`
 	Choices []int   `json:"choices"`
-	Free    bool    `json:"free,omitempty"` // free-running (no controller); used with -race
+	Free    bool    `json:"free,omitempty"`   // free-running (no controller); used with -race
+	Reopen  bool    `json:"reopen,omitempty"` // close and reopen after the prefix: sealed segments are then read through their on-disk index
 }
 
 func genWriter(t *rapid.T, n int) []WOp {
@@ -86,6 +87,10 @@ func genReaders(t *rapid.T, r, n int) [][]ROp {
 func genC06(free bool) func(t *rapid.T) C06Case {
 	return func(t *rapid.T) C06Case {
 		c := C06Case{Free: free, SegSize: rapid.SampledFrom([]int{128, 256, 512}).Draw(t, "seg"), Pre: rapid.IntRange(0, 6).Draw(t, "pre")}
+		c.Reopen = rapid.Bool().Draw(t, "reopen")
+		if c.Reopen {
+			c.Pre = rapid.IntRange(4, 14).Draw(t, "pre2")
+		}
 		if free {
 			c.Writer = genWriter(t, rapid.IntRange(10, 60).Draw(t, "nw"))
 			c.Readers = genReaders(t, rapid.SampledFrom([]int{1, 2, 4, 8}).Draw(t, "nr"), rapid.IntRange(20, 200).Draw(t, "nrops"))
@@ -129,7 +134,7 @@ func runC06(c C06Case) (res common.Result) {
 		res.Fail = common.Failf("open-fresh", "%v", err)
 		return
 	}
-	defer w.Close()
+	defer func() { w.Close() }()
 	m := refmodel.NewLogModel()
 	for i := 0; i < c.Pre; i++ {
 		l := kit.EntrySpec{DataLen: 40, Seed: uint8(i)}.Make(uint64(i+1), 0)
@@ -139,6 +144,13 @@ func runC06(c C06Case) (res common.Result) {
 		}
 		m.Append([]*raft.Log{l})
 		kit.Barrier(w)
+	}
+	if c.Reopen {
+		w.Close()
+		if w, err = cfg.Open(); err != nil {
+			res.Fail = common.Failf("reopen-err", "%v", err)
+			return
+		}
 	}
 	var tick atomic.Int64
 	var vmu sync.Mutex
@@ -415,6 +427,9 @@ func runC06(c C06Case) (res common.Result) {
 	res.NonTrivial = overlaps > 0
 	if overlaps > 0 {
 		res.Classes = append(res.Classes, "read-overlaps-version-change")
+	}
+	if c.Reopen {
+		res.Classes = append(res.Classes, "sealed-segments-read-from-disk-index")
 	}
 	for k := range kinds {
 		res.Classes = append(res.Classes, "overlap:"+k)
